@@ -38,6 +38,9 @@ CHECKS = {
  "C16": ("Four generated case families: SimpleVob operation sequences at sizes around the 32-bit word boundaries against a BTreeSet model (every accessor, and no bit at/above the size); arbitrary vocabularies with a random byte-level DFA acceptor, start prefixes and filter masks against 'test every token separately' (token<->bytes, add_bias, has_valid_extensions, filter, prefix lookups, decode, greedy round trip); hand-built tokenizer.json descriptions (byte-level GPT-2 table + merges, byte-fallback with nested Sequence decoders, added special/non-special tokens) against a reference mapping through both the JSON reader and the HuggingFace adapter with text round trips incl. invalid UTF-8; tiktoken rank tables with holes and specials.",
          "operations are called within their documented preconditions; texts containing 0xFF, an added token's content or the space-replacement character are excluded",
          "model-based property testing (set model / naive per-token model / reference byte mappings)"),
+ "C17": ("C objects (tokenizer, constraint, matcher) created through the extern \"C\" functions from the same token table are driven in lock-step with independently built Rust Constraint/Matcher twins: masks word for word, commit results, validate counts, rollback, ff tokens, flags and error agreement. llg_matcher_compute_mask_into and llg_par_compute_mask write into canary-guarded buffers of 0, 1, W-1, W, W+1, 2W and W+1000 words; a poisoning global allocator (0xA5 tail on every heap block, checked on free) makes out-of-bounds reads of the engine's mask visible and flags out-of-bounds writes.",
+         "the C tokenizer uses the approximate greedy tokenizer; OOB reads beyond the 64-byte poisoned tail depend on heap contents",
+         "property-based differential testing (C API vs Rust API) with guarded buffers and a poisoning allocator"),
  "C19": ("Vocabularies with special tokens and plain look-alike tokens; sequence templates mixing literals, a class containing < | >, and token references (<name>, <[id]>, ranges, negated ranges, <[*]>) with position tracking by the generator: at reference positions the mask must equal exactly the denoted id set (validate and commit agreeing), at text positions no special/marker/empty token may be allowed or accepted; tokenisation of names in text vs marked names is checked per vocabulary.",
          "reference sets are computed by the harness from the documented range semantics; EOS ids at text positions follow C01's accepting clause",
          "property-based testing with generator-side position tracking (validity predicate per state)"),
